@@ -12,11 +12,13 @@ import (
 	"context"
 	"encoding/json"
 	"fmt"
+	"io"
 	"math"
 	"math/rand/v2"
 	"net/http/httptest"
 	"os"
 	"reflect"
+	"runtime"
 	"strconv"
 	"strings"
 	"sync"
@@ -341,6 +343,118 @@ func checkResponse(rec []byte, wantResult any, wantErr *jrpc2.Error) string {
 	return ""
 }
 
+// ---- records that wait between encoding and Send ------------------------------------------------------------------
+//
+// A client encodes a request before it takes its lock; while another Send is in progress the encoded bytes wait. What
+// reaches the channel afterwards must still be what was encoded - whatever else was encoded meanwhile, by the same
+// client, by another one, or by a server on the same processor (one processor for this block: per-processor caches
+// of buffers hand the next encoder what the previous one gave back).
+type parkChan struct {
+	mu     sync.Mutex
+	gate   chan struct{}
+	parked chan struct{}
+	n      int
+	recs   [][]byte
+	done   chan struct{}
+}
+
+func (p *parkChan) Send(b []byte) error {
+	p.mu.Lock()
+	p.n++
+	first := p.n == 1
+	p.recs = append(p.recs, append([]byte(nil), b...))
+	p.mu.Unlock()
+	if first {
+		close(p.parked)
+		<-p.gate
+	}
+	return nil
+}
+func (p *parkChan) Recv() ([]byte, error) { <-p.done; return nil, io.EOF }
+func (p *parkChan) Close() error {
+	select {
+	case <-p.done:
+	default:
+		close(p.done)
+	}
+	return nil
+}
+
+func queuedRecords(res *result) {
+	old := runtime.GOMAXPROCS(1)
+	defer runtime.GOMAXPROCS(old)
+	long := strings.Repeat("x", 300)
+	type op struct {
+		name  string
+		specs []jrpc2.Spec
+	}
+	ops := []op{
+		{"A", []jrpc2.Spec{{Method: "A.one", Params: []string{long}, Notify: true}, {Method: "A.two", Params: []string{long, long}, Notify: true}, {Method: "A.three", Params: map[string]string{"k": long}, Notify: true}}},
+		{"C", []jrpc2.Spec{{Method: "C.one", Params: []int{1}, Notify: true}, {Method: "C.two", Notify: true}}},
+		{"D", []jrpc2.Spec{{Method: "D.one", Params: []string{"d"}, Notify: true}, {Method: "D.two", Params: []string{long}, Notify: true}, {Method: "D.three", Notify: true}, {Method: "D.four", Params: []int{4}, Notify: true}}},
+	}
+	for round := 0; round < 3; round++ {
+		pc := &parkChan{gate: make(chan struct{}), parked: make(chan struct{}), done: make(chan struct{})}
+		cli := jrpc2.NewClient(pc, nil)
+		bg := context.Background()
+		var wg sync.WaitGroup
+		wg.Add(1)
+		go func() { defer wg.Done(); cli.Notify(bg, "first", nil) }()
+		select {
+		case <-pc.parked:
+		case <-time.After(5 * time.Second):
+			res.add("queued records", nil, "harness: the first Send never happened")
+			return
+		}
+		order := [][]int{{0, 1, 2}, {1, 0, 2}, {2, 1, 0}}[round]
+		for _, k := range order {
+			wg.Add(1)
+			go func(o op) { defer wg.Done(); cli.Batch(bg, o.specs) }(ops[k])
+			time.Sleep(5 * time.Millisecond) // (one processor: the sleeper yields; the batch encodes and queues on the lock)
+		}
+		close(pc.gate)
+		wg.Wait()
+		cli.Close()
+		pc.mu.Lock()
+		recs := pc.recs
+		pc.mu.Unlock()
+		res.Evaluations += len(recs)
+		res.Classes["queued"] += len(recs)
+		seen := map[string]int{}
+		for _, rec := range recs[1:] {
+			cell := fmt.Sprintf("record queued behind a Send in progress (round %d)", round)
+			reqs, err := jrpc2.ParseRequests(rec)
+			if bytes.ContainsAny(rec, "\n\r") || !json.Valid(rec) || err != nil {
+				res.add(cell, rec, fmt.Sprintf("what reached Send is not one valid one-line message (ParseRequests: %v)", err))
+				continue
+			}
+			var match string
+			for _, o := range ops {
+				ok := len(reqs) == len(o.specs)
+				for i := 0; ok && i < len(reqs); i++ {
+					want, _ := json.Marshal(o.specs[i].Params)
+					if o.specs[i].Params == nil {
+						want = nil
+					}
+					ok = reqs[i].Error == nil && reqs[i].Method == o.specs[i].Method && (len(want) == 0 && len(reqs[i].Params) == 0 || jsonEq(reqs[i].Params, want))
+				}
+				if ok {
+					match = o.name
+				}
+			}
+			if match == "" {
+				res.add(cell, rec, "the record is none of the batches that were issued (methods and parameters compared)")
+			}
+			seen[match]++
+		}
+		for _, o := range ops {
+			if seen[o.name] != 1 && len(res.Violations) == 0 {
+				res.add("records queued behind a Send in progress", nil, fmt.Sprintf("batch %s reached the channel %d times, want once", o.name, seen[o.name]))
+			}
+		}
+	}
+}
+
 func TestEmit(t *testing.T) {
 	tp := os.Getenv("VERIF_TABLE")
 	if tp == "" {
@@ -657,6 +771,9 @@ func TestEmit(t *testing.T) {
 		srv.Wait()
 		bridge.Close()
 	})
+	if shard == 0 {
+		queuedRecords(res)
+	}
 	out, _ := json.Marshal(res)
 	os.WriteFile(os.Getenv("VERIF_OUT"), out, 0o644)
 }
